@@ -73,7 +73,7 @@ Print Assumptions C09_ipm_of_read.
 Example C09_ipm_example :
   match codec_named [108;97;116;105;110;95;49]%N with
   | Some cd =>
-    let cfg := [(2, mkfc LLVAR (Some 0) PTStr [] PNone false)] in
+    let cfg := [(2, mkfc LLVAR (Some 0) PTStr [] PNone D43None)] in
     let m1 := [(KMTI, VStr [49;49;52;52]%N); (KDE 2, VStr [49;50;51]%N)] in
     let m2 := [(KMTI, VStr [49;50;52;48]%N); (KDE 2, VStr [52;53]%N)] in
     let part := map byte_of_N [0;0;0;24; 49;50;52;48; 192;0;0]%N in
